@@ -486,7 +486,9 @@ class Check:
     def impl_env(self):
         env = dict(os.environ)
         env["PYTHONPATH"] = REPO + os.pathsep + os.path.join(VERIF, "harness")
-        env["PYTHONHASHSEED"] = "0"
+        # string hashing (hence the iteration order of sets / dicts keyed by strings) is fixed per run so that a run
+        # replays exactly; RIG_HASHSEED picks another order (the soak runs do)
+        env["PYTHONHASHSEED"] = os.environ.get("RIG_HASHSEED", "0")
         env[GUARD] = "1"
         env["PYTHONDONTWRITEBYTECODE"] = "1"
         for v in ("OMP_NUM_THREADS", "OPENBLAS_NUM_THREADS", "MKL_NUM_THREADS"):
